@@ -64,9 +64,25 @@ func runC03(w *h.W, batch int) {
 		fail("store-did-not-start", err)
 		return
 	}
-	if err := ingest(st, shuffled(r, corp.Docs), r, r.Range(1, 8)); err != nil {
+	// half of the batches lay the data out over two fractions sealed one after the other in the same process:
+	// the first one is then served from tables built while sealing, after a later seal went through the same code
+	twoFracs := batch%2 == 1 && len(corp.Docs) > 10
+	all := shuffled(r, corp.Docs)
+	first := all
+	if twoFracs {
+		first = all[:len(all)/2]
+	}
+	if err := ingest(st, first, r, r.Range(1, 8)); err != nil {
 		fail("bulk-error", err)
 		return
+	}
+	if twoFracs {
+		st.SealAll()
+		if err := ingest(st, all[len(all)/2:], r, r.Range(1, 8)); err != nil {
+			fail("bulk-error", err)
+			return
+		}
+		cfgDesc += " layout=sealed+active"
 	}
 	runForm := func(form string) {
 		for _, q := range bat {
